@@ -227,3 +227,70 @@ class Tree:
     def pointing_at(self, target: N) -> list[N]:
         """All aliases currently in the tree whose resolved pointer is ``target``."""
         return [n for _p, n, _c in self.walk() if n.kind == "alias" and n.target is target]
+
+
+# -- the implicit stubs merge of set_member (documented: the regular module is what stays in the tree; members only the stubs
+#    have are adopted by the regular side; same-named members are "merged", which changes no structure unless both are
+#    containers of one kind, where the rule applies again one level down; a stub member that is an alias is ignored) ----------
+def shape_of_node(node: N) -> dict:
+    """{name: (kind, shape or None)} of what is stored below a model node (aliases are leaves)."""
+    return {n: (m.kind, shape_of_node(m) if m.kind in ("class", "module") else None) for n, m in node.members.items()}
+
+
+def shape_of_spec(members: list) -> dict:
+    """The same for the flat member list of a value that is still to be built ([kind, dotted name, opt], storing order)."""
+    top: dict = {}
+    for kind, dotted, _opt in members:
+        *pre, leaf = dotted.split(".")
+        level = top
+        for p in pre:
+            level = level[p][1]
+        k = "alias" if kind.startswith("alias") else kind
+        level[leaf] = (k, {} if k in ("class", "module") else None)
+    return top
+
+
+def merge_outside_model(conc: dict, stubs: dict, conc_never_attached: bool) -> str | None:
+    """Why a merge of these two shapes is outside the modelled domain (None: inside).
+    * a regular-side alias under a name the stubs define as a container: the merger then works *through* the alias
+      (a known finding of its own: mutations addressed through an alias are dropped);
+    * a regular-side alias under a name the stubs define as a non-alias, in a regular module that was never attached: looking
+      through the alias needs a modules collection, the merge is abandoned half-way (the merger's business, not this property's)."""
+    for name, (skind, sshape) in stubs.items():
+        if name not in conc or skind == "alias":
+            continue
+        ckind, cshape = conc[name]
+        if ckind == "alias":
+            if skind in ("class", "module"):
+                return "the stubs define a container under the name of a regular-side alias"
+            if conc_never_attached:
+                return "regular-side alias to look through in a module that has no collection yet"
+        elif ckind == skind and ckind in ("class", "module"):
+            why = merge_outside_model(cshape, sshape, conc_never_attached)
+            if why:
+                return why
+    return None
+
+
+def merge_stubs_model(obj: N, stubs: N, moved: list) -> None:
+    """Mirror of the merge on the model: adopt what only the stubs have, recurse into containers both sides have."""
+    for name, sm in list(stubs.members.items()):
+        if name in obj.members:
+            om = obj.members[name]
+            if sm.kind == "alias" or om is sm:
+                continue
+            if om.kind == sm.kind and om.kind in ("class", "module"):
+                merge_stubs_model(om, sm, moved)
+        else:
+            obj.members[name] = sm
+            sm.up = obj
+            moved.append(sm)
+
+
+def adoptable_members(conc: dict, stubs: N):
+    """The stubs-side nodes a merge into a regular side of shape ``conc`` would hand over (the stub-only ones, at every level)."""
+    for name, sm in stubs.members.items():
+        if name not in conc:
+            yield sm
+        elif sm.kind != "alias" and conc[name][0] == sm.kind and sm.kind in ("class", "module"):
+            yield from adoptable_members(conc[name][1], sm)
